@@ -33,7 +33,7 @@ DEFAULT_PROFILE = {
     "p_sstream": 0.25, "p_cstream": 0.15, "p_bidi": 0.15, "p_lro": 0.3, "p_raw_op": 0.08,
     "p_http": 0.9, "p_signature": 0.7, "p_routing": 0.25, "p_keyword_rpc": 0.08,
     "p_service_config": 0.8, "p_yaml": 0.3, "p_reserved_field": 0.08, "p_two_services": 0.25,
-    "p_foreign_request": 0.1, "p_shuffle_numbers": 0.2, "p_additional_binding": 0.25, "p_param_name_collision": 0.0,
+    "p_foreign_request": 0.1, "p_shuffle_numbers": 0.2, "p_additional_binding": 0.25, "p_param_name_collision": 0.0, "p_stream_of_empty": 0.06,
     "p_auto_populate": 0.0, "p_google_api_ns": 0.0, "sig_variants": False, "p_multi_var_path": 0.0, "mixin_variants": False, "p_add_iam_methods": 0.0, "p_equal_sort_keys": 0.0, "p_reserved_path_var": 0.0, "p_local_empty": 0.0, "p_same_method_two_services": 0.0, "p_required_enum": 0.0, "p_custom_http_pattern": 0.0, "p_real_api": 0.04, "p_nested_name_ties": 0.15, "p_double_star_path": 0.0, "p_value_fields": 0.0, "p_mixed_foreign_io": 0.0, "common_file_names": ["resources"],
     "transports": ["grpc", "grpc+rest", "grpc+rest", "rest"],
     "p_numeric_enums": 0.3,
@@ -586,6 +586,8 @@ def _gen_methods(cx, pkg, main, svc, noun, res, enums, msgs):
                                              {"name": "filter", "number": 2, "type": "string"}])
         m = {"name": f"Watch{noun}s", "input": f"{P}.Watch{noun}sRequest", "output": P + "." + noun,
              "server_streaming": True}
+        if cx.chance("p_stream_of_empty"):
+            m["output"] = ".google.protobuf.Empty"       # a heartbeat stream: the messages carry nothing, their arrival does
         if cx.chance("p_http"):
             m["http"] = {"verb": "get", "path": f"{pre}/{{parent={pwild}}}/{coll}:watch"}
         svc["methods"].append(m)
@@ -597,7 +599,8 @@ def _gen_methods(cx, pkg, main, svc, noun, res, enums, msgs):
                                "output": f"{P}.Upload{noun}sSummary", "client_streaming": True})
 
     if cx.chance("p_bidi") and _unique_method(svc, f"Sync{noun}s"):
-        svc["methods"].append({"name": f"Sync{noun}s", "input": P + "." + noun, "output": P + "." + noun,
+        svc["methods"].append({"name": f"Sync{noun}s", "input": P + "." + noun,
+                               "output": ".google.protobuf.Empty" if cx.chance("p_stream_of_empty") else P + "." + noun,
                                "client_streaming": True, "server_streaming": True})
 
     if cx.chance("p_lro") and cx.p.get("lro_variants") and _unique_method(svc, f"Rebuild{noun}"):
